@@ -499,6 +499,27 @@ def c18_run(ctx):
             "regular": ak.to_regular(ak.unflatten(flat, [4, 4]), axis=1),
             "empty": flat[:0],
         }
+        # an extra field that is itself a LIST per vector (deeper than the vectors): results must keep it as it is and keep every
+        # coordinate at the depth of the vectors (a zip without depth_limit broadcasts the coordinates into it; seeded change C18-17)
+        hits = ak.unflatten(numpy.arange(12, dtype=numpy.int64), [2, 0, 3, 1, 1, 2, 0, 3])
+        deep = ak.with_field(flat, hits, "hits")
+        for m, a in UN_VEC + [("to_xyzt", []), ("to_rhophietatau", []), ("to_Vector4D", []), ("to_Vector3D", []), ("to_Vector2D", [])]:
+            if not hasattr(deep, m):
+                continue
+            n += 1
+            try:
+                at = getattr(deep, m)
+                res = (at(**a) if isinstance(a, dict) else at(a) if not isinstance(a, list) else at(*a)) if callable(at) else at
+            except Exception as e:  # noqa: BLE001
+                problems.append((f"raises:flat+list-extra:{m}", f"{m} on a layout with a list-valued extra field ({fl}:{sig}): {type(e).__name__}: {str(e)[:80]}"))
+                continue
+            if not ak.fields(res):
+                continue
+            if "hits" not in ak.fields(res) or ak.to_list(res["hits"]) != ak.to_list(hits):
+                problems.append((f"extra-values:list-extra:{m}", f"{m} on flat+list-extra ({fl}:{sig}) lost or changed the list-valued extra field 'hits'"))
+            bad = [f for f in ak.fields(res) if f in COORD_FIELDS and (len(res[f]) != 8 or res[f].ndim != 1)]
+            if bad:
+                problems.append((f"structure:flat+list-extra:{m}", f"{m} on flat+list-extra ({fl}:{sig}): coordinate fields {bad} are no longer one number per vector ({str(ak.type(res))[:80]})"))
         sig2 = r.choice(C.SIGS[dim])
         rows2 = operands(r, dim, "g", sig2, n=8)
         flat2 = C.ak_array("g", sig2, rows2)
